@@ -120,13 +120,22 @@ theorem HeaderOk.no_nl {h : Str} (hh : HeaderOk h) : '\n' ∉ h := by
   | nil => exact hh.elim
   | cons c t => exact hh.1
 
-/-- the gaps of an assembly have a positive length and a type — the part of `RowStrict` the readers do NOT guarantee -/
-def GapsStrict (a : Assembly) : Prop := ∀ s ∈ a.scaffolds, ∀ g, Row.gap g ∈ s.rows → 1 ≤ g.length ∧ g.gapType ≠ []
+/-- a gap row has a positive length and a type (the part of `RowStrict` the readers do NOT guarantee) -/
+def GapStrict (r : Row) : Prop :=
+  match r with
+  | .gap g => 1 ≤ g.length ∧ g.gapType ≠ []
+  | .frag _ => True
 
-theorem rowStrict_of_parsed {r : Row} (hr : RowParsed r) (hg : ∀ g, r = .gap g → 1 ≤ g.length ∧ g.gapType ≠ []) :
-    RowStrict r := by
+instance (r : Row) : Decidable (GapStrict r) := by unfold GapStrict; cases r <;> infer_instance
+
+/-- every gap of the assembly has a positive length and a type -/
+def GapsStrict (a : Assembly) : Prop := ∀ s ∈ a.scaffolds, ∀ r ∈ s.rows, GapStrict r
+
+instance (a : Assembly) : Decidable (GapsStrict a) := by unfold GapsStrict; infer_instance
+
+theorem rowStrict_of_parsed {r : Row} (hr : RowParsed r) (hg : GapStrict r) : RowStrict r := by
   cases r with
-  | gap g => exact hg g rfl
+  | gap g => exact hg
   | frag f => exact hr.2
 
 end AgpTpf.C06
